@@ -101,8 +101,12 @@ def check(item, tier):
         if kind == 'wrapper':
             return check_wrapper(item, r, torch, EntropyRegularizedPolicyIteration, entropy_regularized_policy_iteration)
         gamma = GAMMAS[cfg % 2]
+        if cfg % 2 == 1 and (cfg // 2 + prior_i + force_i) % 5 == 0 and spec_item[1] == 2:
+            gamma = F(99, 100)       # values ~ 100 x rewards: convergence tolerances are relative
         w = WEIGHTS[(cfg // 2) % 4]
         per_state_w = (cfg // 8) % 2 == 1
+        if rshape_i == 1:
+            spec_item = build.with_ns_rewards(spec_item)       # rewards that depend on the sampled successor
         spec = Spec(spec_item[:5] + (gamma,))
         S = spec.n
         A = len(spec.acts[0])
@@ -130,6 +134,8 @@ def check(item, tier):
         wv = [w * (1 + (s % 2)) for s in range(S)] if per_state_w else [w] * S
         ew = torch.tensor(wv, dtype=torch.float64) if per_state_w else float(w)
         force = bool(force_i)
+        if rshape_i == 0 and cfg % 3 == 0:
+            rf = rf[:, :, :1].copy()       # (s, a) rewards handed over in the broadcastable S x A x 1 shape
         for budget in (2000, 1 + (cfg + prior_i) % 3):
             check_tensor_run(r, item, torch, entropy_regularized_policy_iteration, spec, spec_item, tf, rf, gamma, w, wv, ew, prior, prior_rows,
                              prior_opt, per_state_w, force, budget, S, A, names, cfg, prior_i)
@@ -163,7 +169,7 @@ def check_tensor_run(r, item, torch, entropy_regularized_policy_iteration, spec,
         ctx = {'gamma': gamma, 'w': wv, 'prior': prior_rows, 'force': force, 'n_planning_iters': budget}
         for s in range(S):
             for ai in range(A):
-                look = sum(tf[s, ai, ns] * (rf[s, ai, ns] + g * v[ns]) for ns in range(S))
+                look = sum(tf[s, ai, ns] * (rf[s, ai, ns if rf.shape[2] > 1 else 0] + g * v[ns]) for ns in range(S))
                 r.count('transitions')
                 if not abs(q[s][ai] - look) <= tol:
                     r.violation('q_not_lookahead', dict(ctx, s=s, a=ai, q=q[s][ai], lookahead=look), item)
